@@ -196,7 +196,7 @@ func init() {
 						`^-call:time\.Time\.Before\(.*\.RequestedAt, call:time\.Time\.Add\(call:time\.Now\(\), .*P5.*\)\)$`,
 						`^-call:time\.Time\.After\(.*\.RequestedAt, .*findPendingRedemptions\$\d.*#0\)$`,
 						`^\+\(.*findPendingRedemptions\$\d.*#1 == nil\)$`)
-					r.Cond(sameValue(res.Source, firstSortArg(fn, "RequestedAt")) || pending.Vals[res.Source], "C33.redemptions", name+"#loop-over-sorted", ap.Pos(), "the selection ranges over the sorted pending list")
+					r.Cond((sameValue(res.Source, firstSortArg(fn, "RequestedAt")) || pending.Vals[res.Source]) && !truncated(res.Source, 5), "C33.redemptions", name+"#loop-over-sorted", ap.Pos(), "the selection ranges over the whole sorted pending list (cutting it before the eligibility filter lets ineligible requests use up the limit)")
 				}
 				// range end = now − max(minAge, delay)
 				for _, cl := range fn.AnonFuncs {
@@ -295,4 +295,39 @@ func appendedElemAlloc(ap *ssa.Call) ssa.Value {
 		return e
 	}
 	return ap
+}
+
+// truncated: v is, on some path, a reslice with an upper bound (xs[:k]) of the
+// list it stands for.
+func truncated(v ssa.Value, depth int) bool {
+	if depth == 0 || v == nil {
+		return false
+	}
+	switch x := v.(type) {
+	case *ssa.Slice:
+		if x.High != nil {
+			return true
+		}
+		return truncated(x.X, depth-1)
+	case *ssa.Phi:
+		for _, e := range x.Edges {
+			if e != v && truncated(e, depth-1) {
+				return true
+			}
+		}
+	case *ssa.UnOp:
+		// load of an address-taken local: any store of a truncated value into it counts
+		if al, ok := x.X.(*ssa.Alloc); ok {
+			for _, ref := range *al.Referrers() {
+				if st, isSt := ref.(*ssa.Store); isSt && st.Addr == ssa.Value(al) {
+					if sl, isSl := st.Val.(*ssa.Slice); isSl && sl.High != nil {
+						if _, fresh := sl.X.(*ssa.Alloc); !fresh { // make([]T, 0) lowers to a slice of a fresh array
+							return true
+						}
+					}
+				}
+			}
+		}
+	}
+	return false
 }
